@@ -911,6 +911,38 @@ def run(ck):
                     'basic_blocks.' + '.'.join(reversed(chain)) + '()', 'a guarded arm' if guards else 'an extra condition' if conds else 'a narrowing pattern')
         ck.ob('R5.7', 'every-return-collected', ok, L.loc(flt) if flt else '', why)
 
+    # ---- R5.6 lvalues: an element of a list can be assigned only if the list is a local variable ------------------------------------------------
+    # every other subscripted object (a property, a method result, an element of another list) is a temporary copy in the generated code:
+    # a write to it is lost. The kind is decided in the Subscript arm of walk_expr, per kind of the object expression.
+    we = L.fn('typedexpr::walk_expr')
+    if we is None:
+        ck.floor('R5.6', 0, 1, 'fn typedexpr::walk_expr')
+    else:
+        tab = {}
+        for mt in (n for n in walk(we['body']) if n.get('k') == 'Match'):
+            arms = {}
+            for a in mt['arms']:
+                pt = pp(a['pat'], maxlen=80)
+                mm_ = re.match(r'^Intermediate::(\w+)', pt)
+                if not mm_:
+                    continue
+                vs = [H.strip_refs(v) for v in H.value_exprs(a['body'])]
+                kinds = set()
+                for v in vs:
+                    if v.get('k') == 'Tup' and len(v['es']) == 2:
+                        e1 = H.strip_refs(v['es'][1])
+                        kinds.add((e1.get('def') or '').split('::')[-1] if e1.get('k') == 'Path' and 'ExprKind::' in (e1.get('def') or '') else 'other:' + pp(e1, maxlen=20))
+                if kinds:
+                    arms[mm_.group(1)] = sorted(kinds)
+            if 'BoundSubscript' in arms and 'Local' in arms and len(arms) >= 4:
+                tab = arms
+                tab_node = mt
+        want = {'Item': ['Rvalue'], 'Local': ['Lvalue'], 'BoundProperty': ['Rvalue'], 'BoundSubscript': ['Rvalue']}
+        ck.ob('R5.6', 'subscript-lvalue-only-on-a-local', bool(tab) and all(tab.get(k_) == v_ for k_, v_ in want.items()) and all(v_ == ['Rvalue'] for k_, v_ in tab.items() if k_ != 'Local'),
+              L.loc(tab_node) if tab else L.loc(we['body']),
+              'subscript object kinds -> element kind: %s' % tab if tab and all(tab.get(k_) == v_ for k_, v_ in want.items()) else
+              'the element of a subscript is an lvalue for an object that is not a local variable (%s): `rows[0][1] = v` / `obj.list[0] = v` is accepted and writes to a temporary copy' % (tab or 'table not found'), fn=we['path'])
+
     # ---- shared obligations: places outside the type checker that decide whether its verdict is reached at all -------------------------------
     import core as _core
     import rules.c01 as c01
@@ -926,3 +958,9 @@ def run(ck):
                        ' [Omit drops non-constant bindings without looking at them: their result type and writability are never checked]')
     c14.run(s14)
     ck.floor('R5.11', s14.count, 4, 'shared C14 R14.5 obligations')
+    # which bindings count as constant (and are therefore never handed to the result-type check of the code-generation pass): C02 R2.5
+    import rules.c02 as c02
+    s2 = _core.Shared(ck, 'R5.11', lambda r, k: r == 'R2.5' and k.startswith('map-constant-iff-all-children'), 'C02:',
+                      ' [a grouped binding that counts as constant although one member is dynamic is skipped by both passes: that member is never type-checked]')
+    c02.run(s2)
+    ck.floor('R5.11', s14.count + s2.count, 5, 'shared C14 R14.5 / C02 R2.5 obligations')
